@@ -545,6 +545,105 @@ fn large_family(shape: u64, n: u64) -> Vec<i64> {
 const SHAPES: u64 = 10;
 
 // ------------------------------------------------------------------------------------------------
+// Part 3b: the table limits at the call sites (PL -> TFM conversion)
+// ------------------------------------------------------------------------------------------------
+
+const TABLE_KINDS: [(&str, usize, [usize; 3]); 4] = [("CHARWD", 255, [255, 256, 257]), ("CHARHT", 15, [15, 16, 17]), ("CHARDP", 15, [15, 16, 17]), ("CHARIC", 63, [63, 64, 65])];
+
+/// N distinct non-zero values of dimension `kind` in a property list, through from_pl_source_code -> tfm::File -> serialize -> deserialize.
+fn check_table_limit(idx: u64, kind: usize, n: usize, shape: u64, acc: &mut Acc) {
+    acc.eval();
+    acc.nontrivial();
+    let (name, limit, _) = TABLE_KINDS[kind];
+    if kind == 3 && n >= 64 {
+        acc.count("pl_with_64_or_more_distinct_italic_corrections");
+    }
+    if n > limit {
+        acc.count("pl_table_needs_compression");
+    }
+    let value = |i: usize| -> i64 {
+        let k = i as i64 + 1;
+        match shape {
+            0 => k * 60_001,
+            1 => k * k * 250,
+            _ => if i % 2 == 0 { k * 60_001 } else { -k * 60_001 },
+        }
+    };
+    // characters 0..min(n,256); the 257th value is a second CHARACTER entry for character 0 (PLtoTF keeps the overwritten value in the table)
+    let mut text = String::from("(DESIGNSIZE R 10.0)\n");
+    let mut per_char: Vec<i64> = vec![];
+    for i in 0..n {
+        let c = i % 256;
+        let v = value(i);
+        if i < 256 {
+            per_char.push(v);
+        } else {
+            per_char[c] = v;
+        }
+        text.push_str(&format!("(CHARACTER D {c} {}({name} R {}))\n", if kind == 0 { "" } else { "(CHARWD R 1.0) " }, fix::print_fix(v as i32)));
+    }
+    let all: Vec<i64> = (0..n).map(value).collect();
+    let sorted = fix::sorted_distinct(&all);
+    let best = fix::min_tolerance(&sorted, limit).expect("limit >= 1");
+    let case = || json!({"kind": "table-limit", "dimension": name, "n": n, "shape": shape});
+    let r = catch(|| {
+        let (pl, _w) = tfm::pl::File::from_pl_source_code(&text);
+        let file: tfm::File = pl.into();
+        let bytes = file.serialize();
+        let (back, _dw) = tfm::File::deserialize(&bytes);
+        back.map(|f| {
+            let table: Vec<i32> = match kind {
+                0 => &f.widths,
+                1 => &f.heights,
+                2 => &f.depths,
+                _ => &f.italic_corrections,
+            }
+            .iter()
+            .map(|w| w.0)
+            .collect();
+            let idx: Vec<Option<usize>> = (0..per_char.len())
+                .map(|c| {
+                    f.char_dimens.get(&Char(c as u8)).map(|d| match kind {
+                        0 => d.width_index.valid().map(|i| i.get() as usize).unwrap_or(0),
+                        1 => d.height_index as usize,
+                        2 => d.depth_index as usize,
+                        _ => d.italic_index as usize,
+                    })
+                })
+                .collect();
+            (table, idx)
+        })
+        .map_err(|e| format!("{e:?}"))
+    });
+    match r {
+        Err(p) => acc.fail(idx, case(), "a TFM file", p.describe(), "PL -> TFM -> bytes -> TFM panicked"),
+        Ok(Err(e)) => acc.fail(idx, case(), "a TFM file that can be read back", e, "the TFM file produced from the property list cannot be read back"),
+        Ok(Ok((table, index))) => {
+            if table.len() > limit + 1 {
+                acc.fail(idx, case(), format!("at most {} words ({limit} classes and the zero word)", limit + 1), format!("{} words", table.len()), format!("the {name} table exceeds the TFM limit"));
+                return;
+            }
+            for (c, v) in per_char.iter().enumerate() {
+                let Some(k) = index[c] else {
+                    acc.fail(idx, case(), format!("character {c}"), "missing", "a character of the property list is missing from the TFM file");
+                    return;
+                };
+                if k >= table.len() {
+                    acc.fail(idx, case(), format!("index < {}", table.len()), format!("index {k} for character {c}"), format!("{name} index outside the table"));
+                    return;
+                }
+                let rep = table[k] as i64;
+                if 2 * (v - rep).abs() > best + (best & 1) {
+                    acc.fail(idx, case(), format!("|{v} - value read back| <= {best}/2 (minimal tolerance for {limit} classes)"), format!("character {c}: index {k}, value {rep}"), format!("a {name} read back from the TFM file is farther than half the minimal tolerance from the value in the property list"));
+                    return;
+                }
+            }
+            acc.class(&format!("{name}: {n} values -> {} table words", table.len()));
+        }
+    }
+}
+
+// ------------------------------------------------------------------------------------------------
 // Part 4: next larger
 // ------------------------------------------------------------------------------------------------
 
@@ -1094,6 +1193,11 @@ fn main() {
             check_compress(i, &values, limit, acc, &|| json!({"kind": "compress-large", "shape": d[0], "n": sizes[d[1] as usize], "limit": limit}));
         });
     }
+    // ---- part 3b
+    ctx.family("pl-table-limits-through-conversion", "property lists with N distinct non-zero CHARWD (N = 255, 256, 257), CHARHT / CHARDP (15, 16, 17), CHARIC (63, 64, 65) in 3 value shapes, through from_pl_source_code -> tfm::File -> serialize -> deserialize: table within the TFM limit (256/16/16/64 words), every index inside the table, every value read back within half the brute-force minimal tolerance", 4 * 3 * 3, |i, acc| {
+        let d = vcore::digits(i, &[4, 3, 3]);
+        check_table_limit(i, d[0] as usize, TABLE_KINDS[d[0] as usize].2[d[1] as usize], d[2], acc);
+    });
     // ---- part 4
     {
         let nmax = ctx.pick(6usize, 8usize);
@@ -1118,6 +1222,8 @@ fn main() {
     ctx.require("compress_empty_input", "compress of no values");
     ctx.require("compress_255_distinct_at_limit_254_255", "exactly 255 distinct values with limit 254 or 255 (largest 8-bit index)");
     ctx.require("compress_256_distinct_at_limit_255", "exactly 256 distinct values with limit 255");
+    ctx.require("pl_with_64_or_more_distinct_italic_corrections", "a property list with 64 or more distinct non-zero CHARIC values converted to TFM");
+    ctx.require("pl_table_needs_compression", "a property list with more distinct values than the TFM table holds");
     ctx.require("nl_character_with_256_incoming_links", "every character, the hub included, names the same next-larger character (in-degree 256)");
     ctx.require("nl_character_with_255_incoming_links", "a character with exactly 255 incoming next-larger links");
     ctx.require("nl_character_with_128_incoming_links", "a character with exactly 128 incoming next-larger links");
@@ -1155,6 +1261,10 @@ fn replay(case: &Value, acc: &mut Acc) {
         Some("compress-large") => {
             let values = large_family(u("shape"), u("n"));
             check_compress(0, &values, u("limit") as u8, acc, &|| case.clone());
+        }
+        Some("table-limit") => {
+            let kind = TABLE_KINDS.iter().position(|k| Some(k.0) == case["dimension"].as_str()).unwrap_or(0);
+            check_table_limit(0, kind, u("n") as usize, u("shape"), acc);
         }
         Some("nextlarger-large") => check_next_larger_large(0, u("shape"), u("mask"), case["drop"].as_bool().unwrap_or(true), case["reversed"].as_bool().unwrap_or(false), acc),
         Some("route") => {
